@@ -172,6 +172,10 @@ def _set_dataclass_init(class_: Class) -> None:
     if not _dataclass_decorator(class_.decorators):
         return
 
+    # With `@dataclass(init=False)`, no `__init__` method is generated.
+    if _dataclass_arguments(class_.decorators).get("init") == "False":
+        return
+
     logger.debug("Handling dataclass: %s", class_.path)
 
     # Add current class parameters.
